@@ -1683,7 +1683,7 @@ func (p *parser) primaryExpression() (Node, error) {
 			return nil, err
 		}
 
-		child, err := p.expression(precedence(lexer.AddToken))
+		child, err := p.expression(precedence(lexer.MultiplyToken))
 		if err != nil {
 			return nil, err
 		}
@@ -1896,7 +1896,7 @@ func (p *parser) primaryExpression() (Node, error) {
 			return nil, err
 		}
 
-		child, err := p.expression(precedence(lexer.SubtractToken))
+		child, err := p.expression(precedence(lexer.MultiplyToken))
 		if err != nil {
 			return nil, err
 		}
